@@ -758,3 +758,43 @@ def _mk_headers(family):
 
 for _f in ('soap11', 'soap12'):
     _mk_headers(_f)
+
+
+@obligation('C01.client.out_object', targets=['spyne.client._base:RemoteProcedureBase.get_out_object'],
+            desc="the Spyne client's argument packing for symbolic integer arguments (so also 0): each argument, given by "
+                 "position or by keyword, is sent as the value given; arguments not given are None",
+            assumptions=["a three-argument method; the packing code does not inspect the declared types"])
+def client_out_object(c):
+    got = []
+
+    class PSvc(ServiceBase):
+        @rpc(Integer, Integer, Integer, _returns=Integer)
+        def three(ctx, a, b, cc):
+            return a
+    app = Application([PSvc], TNS, name='VApp', in_protocol=XmlDocument(), out_protocol=XmlDocument())
+
+    class P(RemoteProcedureBase):
+        def __call__(self, *a, **k):
+            pass
+    proc = P('http://x/', app, 'three', None)
+    ctx = proc.contexts[0]
+    names = ['a', 'b', 'cc']
+    vals = [c.int('arg_' + n) for n in names]
+    how = [c.choose(['positional', 'keyword', 'absent'], 'how_' + n) for n in names]
+    # positional arguments form a prefix
+    if any(how[i] != 'positional' and how[j] == 'positional' for i in range(3) for j in range(i + 1, 3)):
+        c.end('not a valid call form')
+    args = [v for v, h in zip(vals, how) if h == 'positional']
+    kwargs = {n: v for n, v, h in zip(names, vals, how) if h == 'keyword'}
+    out = c.run(proc.get_out_object, ctx, args, kwargs)
+    c.check('returns', out.returned, detail=repr(out))
+    if not out.returned:
+        return
+    sent = ctx.out_object
+    c.check('three_slots', isinstance(sent, list) and len(sent) == 3, detail=repr(sent))
+    for i, n in enumerate(names):
+        if how[i] == 'absent':
+            c.check('argument_not_given_is_none[%s]' % n, sent[i] is None, detail=repr(sent[i]))
+        else:
+            c.check('argument_sent_as_given[%s]' % n, (sent[i] is vals[i]) if not c.concrete else sent[i] == vals[i],
+                    detail=(n, repr(sent[i])))
